@@ -1,1 +1,373 @@
-(* Proto/Schema.v -- stub, to be filled *)
+(* Proto/Schema.v -- C18.
+   (1) [schema_of]: the abstract content of the .proto file that asn1rs emits for a generated type
+       (asn1rs-model/src/protobuf.rs: definition_to_protobuf / definition_type_to_protobuf_type;
+        asn1rs-model/src/generate/protobuf.rs: append_definition / append_field / append_variant:
+        message field i gets number i+1, oneof variant j gets number j+1, enum variant k gets value k).
+       Definitions are inlined at their use (the file is a forest of named definitions; names do not
+       matter on the wire).
+   (2) [pb_decode]: a reference proto3 wire decoder under such a schema, written from the protobuf
+       encoding specification and independent of Rw.v: unknown fields skipped, a field with an
+       unexpected wire type treated as unknown, last-one-wins for singular fields and oneofs, embedded
+       messages merged, repeated numeric fields accepted packed or unpacked.
+   (3) [pb_of_val]: the field values the schema reader is expected to see for a value. *)
+From A1 Require Export Proto.Rw.
+Require Import ZifyBool ZifyNat ZifyN.
+Local Open Scope N_scope.
+
+(** * Abstract schema *)
+Inductive pscalar := SBool | SUInt32 | SUInt64 | SSInt32 | SSInt64 | SString | SBytes.
+
+Inductive ptype :=
+| PScalar (s : pscalar)
+| PEnumT (n : N)                         (* enum with values 0 .. n-1 *)
+| PMsgT (fs : list (N * ptype))          (* message: (field number, type) in file order *)
+| PRepeated (t : ptype)                  (* "repeated <t>" *)
+| POneofT (alts : list (N * ptype)).     (* "oneof value { <t> name = number; .. }" *)
+Definition pmsg := list (N * ptype).
+
+(* definition_type_to_protobuf_type on the RustType the integer was mapped to *)
+Definition scalar_of_kind (k : pikind) : pscalar :=
+  match k with
+  | KU8 | KU16 | KU32 => SUInt32
+  | KI8 | KI16 | KI32 => SSInt32
+  | KU64 => SUInt64
+  | KI64 => SSInt64
+  end.
+
+Fixpoint number_from {A} (i : N) (l : list A) : list (N * A) :=
+  match l with [] => [] | x :: r => (i, x) :: number_from (i + 1) r end.
+
+(* type of a field whose ASN.1 type is t (OPTIONAL / DEFAULT are dropped: "in protobuf everything is optional") *)
+Fixpoint field_type (t : pty) : ptype :=
+  match t with
+  | TBool => PScalar SBool
+  | TInt k => PScalar (scalar_of_kind k)
+  | TStr => PScalar SString
+  | TBytes => PScalar SBytes
+  | TBits => PScalar SBytes                (* BitsReprByBytesAndBitsLen prints as "bytes" *)
+  | TNull => PScalar SBytes                (* RustType::Null => ProtobufType::Bytes *)
+  | TEnum n => PEnumT n
+  | TSeq fs => PMsgT (number_from 1 (map (fun '(_, t) => field_type t) fs))
+  | TSeqOf t' => PRepeated (field_type t')
+  | TChoice alts => PMsgT [(1, POneofT (number_from 1 (map field_type alts)))]
+  end.
+
+(* the message definition emitted for a top-level type (None for a top-level ENUMERATED: an enum is not a message) *)
+Definition schema_of (t : pty) : option pmsg :=
+  match field_type t with PMsgT fs => Some fs | _ => None end.
+
+(** declared form of a zoo type: a SET with explicit context tags is visited by the generated
+    read_seq/write_seq in canonical tag order (walker.rs sort_fields_canonically) but printed in the
+    .proto in declaration order *)
+Inductive decl :=
+| DPlain (t : pty)
+| DSetTop (fs : list (N * (bool * pty))).   (* (context tag, component) in declaration order *)
+
+Fixpoint insert_by_tag (x : N * (bool * pty)) (l : list (N * (bool * pty))) :=
+  match l with
+  | [] => [x]
+  | y :: r => if fst x <=? fst y then x :: l else y :: insert_by_tag x r
+  end.
+Definition sort_by_tag (l : list (N * (bool * pty))) := fold_right insert_by_tag [] l.
+
+Definition visit_ty (d : decl) : pty :=
+  match d with DPlain t => t | DSetTop fs => TSeq (map snd (sort_by_tag fs)) end.
+Definition decl_ty (d : decl) : pty :=
+  match d with DPlain t => t | DSetTop fs => TSeq (map snd fs) end.
+Definition schema_of_decl (d : decl) : pmsg :=
+  match schema_of (decl_ty d) with Some m => m | None => [] end.
+
+Definition zoo_set : decl := DSetTop [(1, (false, TStr)); (0, (false, TInt KU8))].
+
+(** proto3 validity of what is emitted (the part that can go wrong): `repeated` only directly on a
+    field (not nested, not inside a oneof), enums non-empty, positive distinct field numbers *)
+Fixpoint nodup_n (l : list N) : bool :=
+  match l with [] => true | x :: r => negb (existsb (N.eqb x) r) && nodup_n r end.
+Definition is_repeated (t : ptype) : bool := match t with PRepeated _ => true | _ => false end.
+Definition is_oneof (t : ptype) : bool := match t with POneofT _ => true | _ => false end.
+
+Fixpoint valid_type (t : ptype) : bool :=
+  match t with
+  | PScalar _ => true
+  | PEnumT n => 0 <? n
+  | PMsgT fs =>
+      nodup_n (flat_map (fun '(n, t) => match t with POneofT alts => map fst alts | _ => [n] end) fs)
+      && forallb (fun '(n, t) => (0 <? n) && valid_type t) fs
+  | PRepeated t' => negb (is_repeated t') && negb (is_oneof t') && valid_type t'
+  | POneofT alts =>
+      negb (is_nil alts)
+      && forallb (fun '(n, t) => (0 <? n) && negb (is_repeated t) && negb (is_oneof t) && valid_type t) alts
+  end.
+Definition valid_proto3 (m : pmsg) : bool := valid_type (PMsgT m).
+
+(** * Reference decoder *)
+Inductive wire := WVarint (v : N) | W64 (l : list N) | WLen (l : list N) | W32 (l : list N).
+
+(* base-128 little-endian varint, at most 10 bytes, value truncated to 64 bits *)
+Fixpoint spec_varint (fuel : nat) (bs : list N) : option (N * list N) :=
+  match fuel, bs with
+  | S f, b :: rest =>
+      if b <? 128 then Some (b, rest)
+      else match spec_varint f rest with
+           | Some (hi, rest') => Some (((b - 128) + 128 * hi) mod 18446744073709551616, rest')
+           | None => None
+           end
+  | _, _ => None
+  end.
+Definition get_varint (bs : list N) := spec_varint 10 bs.
+
+Definition split_at (n : N) (bs : list N) : option (list N * list N) :=
+  if N.of_nat (length bs) <? n then None
+  else Some (firstn (N.to_nat n) bs, skipn (N.to_nat n) bs).
+
+Fixpoint parse_records (fuel : nat) (bs : list N) : option (list (N * wire)) :=
+  match fuel with
+  | O => None
+  | S f =>
+      match bs with
+      | [] => Some []
+      | _ =>
+          match get_varint bs with
+          | None => None
+          | Some (key, r0) =>
+              let field := key / 8 in
+              if (field =? 0) || (4294967295 <? key) then None
+              else
+                let cont (w : wire) (rest : list N) :=
+                  match parse_records f rest with
+                  | Some recs => Some ((field, w) :: recs)
+                  | None => None
+                  end in
+                match key mod 8 with
+                | 0 => match get_varint r0 with Some (v, r1) => cont (WVarint v) r1 | None => None end
+                | 1 => match split_at 8 r0 with Some (p, r1) => cont (W64 p) r1 | None => None end
+                | 2 => match get_varint r0 with
+                       | Some (n, r1) => match split_at n r1 with Some (p, r2) => cont (WLen p) r2 | None => None end
+                       | None => None end
+                | 5 => match split_at 4 r0 with Some (p, r1) => cont (W32 p) r1 | None => None end
+                | _ => None
+                end
+          end
+      end
+  end.
+Definition records (bs : list N) := parse_records (S (length bs)) bs.
+
+Inductive pbval :=
+| BNum (z : Z)
+| BBytes (l : list N)
+| BMsg (o : option (list pbval))         (* one value per schema field, in schema order *)
+| BRep (l : list pbval)
+| BOneof (o : option (N * pbval)).       (* (field number set, its value) *)
+
+Definition is_varint_scalar (s : pscalar) : bool :=
+  match s with SString | SBytes => false | _ => true end.
+
+Definition unzigzag (n : N) : Z := if N.even n then Z.of_N (n / 2) else (- Z.of_N ((n + 1) / 2))%Z.
+
+(* value of a varint-coded scalar *)
+Definition num_value (s : pscalar) (v : N) : Z :=
+  match s with
+  | SBool => if v =? 0 then 0%Z else 1%Z
+  | SUInt32 => Z.of_N (v mod 4294967296)
+  | SUInt64 => Z.of_N v
+  | SSInt32 => unzigzag (v mod 4294967296)
+  | SSInt64 => unzigzag v
+  | _ => 0%Z
+  end.
+
+Definition lens (ws : list wire) : list (list N) :=
+  flat_map (fun w => match w with WLen l => [l] | _ => [] end) ws.
+Definition varints (ws : list wire) : list N :=
+  flat_map (fun w => match w with WVarint v => [v] | _ => [] end) ws.
+
+Definition dec_scalar (s : pscalar) (ws : list wire) : pbval :=
+  if is_varint_scalar s then BNum (num_value s (last (varints ws) 0))
+  else BBytes (last (lens ws) []).
+
+(* enum values are int32 on the wire; proto3 keeps unknown values *)
+Definition dec_enum (ws : list wire) : pbval := BNum (Z.of_N (last (varints ws) 0 mod 4294967296)).
+
+Fixpoint all_varints (fuel : nat) (bs : list N) : option (list N) :=
+  match fuel with
+  | O => None
+  | S f => match bs with
+           | [] => Some []
+           | _ => match get_varint bs with
+                  | Some (v, r) => match all_varints f r with Some l => Some (v :: l) | None => None end
+                  | None => None end
+           end
+  end.
+
+(* repeated numeric: every record is either one element (varint) or a packed run (length-delimited) *)
+Fixpoint dec_packed (f : N -> pbval) (ws : list wire) : option (list pbval) :=
+  match ws with
+  | [] => Some []
+  | WVarint v :: r => match dec_packed f r with Some l => Some (f v :: l) | None => None end
+  | WLen p :: r =>
+      match all_varints (S (length p)) p, dec_packed f r with
+      | Some vs, Some l => Some (map f vs ++ l)
+      | _, _ => None
+      end
+  | _ :: r => dec_packed f r
+  end.
+
+Definition wire_ok (t : ptype) (w : wire) : bool :=
+  match t, w with
+  | PScalar s, WVarint _ => is_varint_scalar s
+  | PScalar s, WLen _ => negb (is_varint_scalar s)
+  | PEnumT _, WVarint _ => true
+  | PMsgT _, WLen _ => true
+  | _, _ => false
+  end.
+
+Definition select (num : N) (recs : list (N * wire)) : list wire :=
+  flat_map (fun '(n, w) => if n =? num then [w] else []) recs.
+
+(* [dec_field t ws]: value of a field of type t given the payloads of all its records, in order *)
+Fixpoint dec_field (t : ptype) (ws : list wire) {struct t} : option pbval :=
+  match t with
+  | PScalar s => Some (dec_scalar s ws)
+  | PEnumT _ => Some (dec_enum ws)
+  | PRepeated t' =>
+      match t' with
+      | PScalar s =>
+          if is_varint_scalar s then option_map BRep (dec_packed (fun v => BNum (num_value s v)) ws)
+          else Some (BRep (map BBytes (lens ws)))
+      | PEnumT _ => option_map BRep (dec_packed (fun v => BNum (Z.of_N (v mod 4294967296))) ws)
+      | _ =>
+          option_map BRep
+            ((fix elems (ws : list wire) : option (list pbval) :=
+                match ws with
+                | [] => Some []
+                | WLen l :: r =>
+                    match dec_field t' [WLen l], elems r with
+                    | Some v, Some vs => Some (v :: vs)
+                    | _, _ => None
+                    end
+                | _ :: r => elems r
+                end) ws)
+      end
+  | PMsgT fs =>
+      match lens ws with
+      | [] => Some (BMsg None)
+      | ls =>
+          match records (concat ls) with
+          | None => None
+          | Some recs =>
+              option_map (fun vs => BMsg (Some vs))
+                ((fix fields (fs : list (N * ptype)) {struct fs} : option (list pbval) :=
+                    match fs with
+                    | [] => Some []
+                    | (num, ft) :: fs' =>
+                        let ov :=
+                          match ft with
+                          | POneofT alts =>
+                              (* last record that belongs to the oneof wins *)
+                              (fix scan (recs : list (N * wire)) (acc : option (N * pbval)) {struct recs}
+                                 : option pbval :=
+                                 match recs with
+                                 | [] => Some (BOneof acc)
+                                 | (n, w) :: r =>
+                                     match (fix find (alts : list (N * ptype)) {struct alts} : option (option pbval) :=
+                                              match alts with
+                                              | [] => Some None
+                                              | (an, at_) :: ar =>
+                                                  if (an =? n) && wire_ok at_ w
+                                                  then match dec_field at_ [w] with
+                                                       | Some v => Some (Some v)
+                                                       | None => None
+                                                       end
+                                                  else find ar
+                                              end) alts with
+                                     | None => None
+                                     | Some None => scan r acc
+                                     | Some (Some v) => scan r (Some (n, v))
+                                     end
+                                 end) recs None
+                          | _ => dec_field ft (select num recs)
+                          end in
+                        match ov, fields fs' with
+                        | Some v, Some vs => Some (v :: vs)
+                        | _, _ => None
+                        end
+                    end) fs)
+          end
+      end
+  | POneofT _ => None
+  end.
+
+Definition pb_decode (m : pmsg) (bytes : list N) : option (list pbval) :=
+  match dec_field (PMsgT m) [WLen bytes] with
+  | Some (BMsg (Some vs)) => Some vs
+  | _ => None
+  end.
+
+(** * Expected field values of a value *)
+(* what a reader sees for an absent field of this type *)
+Definition absent_of (t : pty) : pbval :=
+  match t with
+  | TBool | TInt _ | TEnum _ => BNum 0
+  | TStr | TBytes | TBits | TNull => BBytes []
+  | TSeq _ | TChoice _ => BMsg None
+  | TSeqOf _ => BRep []
+  end.
+
+Fixpoint pb_field (t : pty) (v : pval) {struct t} : pbval :=
+  match t, v with
+  | TBool, VBool b => BNum (if b then 1 else 0)
+  | TInt _, VInt z => BNum z
+  | TStr, VStr s => BBytes s
+  | TBytes, VBytes l => BBytes l
+  | TBits, VBits bytes n => BBytes (firstn (N.to_nat (N.min ((n + 7) / 8) (N.of_nat (length bytes)))) bytes ++ be_bytes 8 n)
+  | TNull, VNull => BBytes []
+  | TEnum _, VEnum i => BNum (Z.of_N i)
+  | TSeq fs, VSeq vs =>
+      BMsg (Some
+        ((fix fields (fs : list (bool * pty)) (vs : list pval) {struct fs} : list pbval :=
+            match fs, vs with
+            | (false, t) :: fs', v :: vs' => pb_field t v :: fields fs' vs'
+            | (true, t) :: fs', VOpt (Some v) :: vs' => pb_field t v :: fields fs' vs'
+            | (true, t) :: fs', VOpt None :: vs' => absent_of t :: fields fs' vs'
+            | _, _ => []
+            end) fs vs))
+  | TSeqOf t', VList vs => BRep (map (pb_field t') vs)
+  | TChoice alts, VChoice i v =>
+      BMsg (Some [BOneof
+        ((fix pick (alts : list pty) (k : N) {struct alts} : option (N * pbval) :=
+            match alts with
+            | a :: r => if k =? 0 then Some (i + 1, pb_field a v) else pick r (k - 1)
+            | [] => None
+            end) alts i)])
+  | _, _ => BMsg None
+  end.
+
+Definition pb_of_val (t : pty) (v : pval) : option (list pbval) :=
+  match pb_field t v with BMsg (Some vs) => Some vs | _ => None end.
+
+
+(** * Dumps for the executable interface *)
+Local Open Scope Z_scope.
+Definition scalar_code (s : pscalar) : Z :=
+  match s with SBool => 1 | SUInt32 => 2 | SUInt64 => 3 | SSInt32 => 4 | SSInt64 => 5 | SString => 6 | SBytes => 7 end.
+
+Fixpoint dump_type (t : ptype) : list Z :=
+  match t with
+  | PScalar s => [1; scalar_code s]
+  | PEnumT n => [2; Z.of_N n]
+  | PMsgT fs => 3 :: Z.of_nat (length fs) :: flat_map (fun '(n, t) => Z.of_N n :: dump_type t) fs
+  | PRepeated t' => 4 :: dump_type t'
+  | POneofT alts => 5 :: Z.of_nat (length alts) :: flat_map (fun '(n, t) => Z.of_N n :: dump_type t) alts
+  end.
+Definition dump_msg (m : pmsg) : list Z := dump_type (PMsgT m).
+
+Fixpoint dump_pbval (v : pbval) : list Z :=
+  match v with
+  | BNum z => [1; z]
+  | BBytes l => 2 :: Z.of_nat (length l) :: map Z.of_N l
+  | BMsg None => [3; 0]
+  | BMsg (Some vs) => 3 :: 1 :: Z.of_nat (length vs) :: flat_map dump_pbval vs
+  | BRep vs => 4 :: Z.of_nat (length vs) :: flat_map dump_pbval vs
+  | BOneof None => [5; 0]
+  | BOneof (Some (n, v)) => 5 :: 1 :: Z.of_N n :: dump_pbval v
+  end.
+Definition dump_pbmsg (vs : list pbval) : list Z := dump_pbval (BMsg (Some vs)).
